@@ -265,6 +265,49 @@ pub fn test_case(c: &ServeCase, stats: &mut Stats) -> Result<(), String>
             }
         }
     }
+    // 4b. relatives of recorded names: the same 256-bit value with one bit flipped somewhere (first, middle, last bytes)
+    //     is a well-formed name of something that was never recorded or cached
+    {
+        let mut relatives: Vec<String> = vec![];
+        let flip = |name: &str, byte: usize, bit: u8| -> Option<String>
+        {
+            b62::decode(name).ok().map(|mut v| { v[byte] ^= 1 << bit; b62::encode(&v) })
+        };
+        for ((rt, st), _) in recorded.iter().take(3)
+        {
+            for (byte, bit) in [(0usize, 0u8), (7, 7), (8, 0), (9, 3), (16, 5), (24, 1), (31, 7), (31, 0)]
+            {
+                if let Some(s2) = flip(st, byte, bit)
+                {
+                    if !recorded.contains_key(&(rt.clone(), s2.clone())) { relatives.push(format!("/rules/{}/{}", rt, s2)); }
+                }
+                if let Some(r2) = flip(rt, byte, bit)
+                {
+                    if !recorded.contains_key(&(r2.clone(), st.clone())) { relatives.push(format!("/rules/{}/{}", r2, st)); }
+                }
+            }
+        }
+        for name in cache.keys().take(3)
+        {
+            for (byte, bit) in [(0usize, 0u8), (8, 0), (20, 4), (31, 7)]
+            {
+                if let Some(n2) = flip(name, byte, bit)
+                {
+                    if !cache.contains_key(&n2) { relatives.push(format!("/files/{}", n2)); }
+                }
+            }
+        }
+        for target in relatives.iter()
+        {
+            let r = get(port, target)?;
+            requests += 1;
+            if r.status != 404
+            {
+                return Err(format!("GET {} (a recorded name with one bit of the value flipped: never recorded, never cached) returned {}", target, r.status));
+            }
+        }
+        stats.count("one_bit_relatives_requested", relatives.len() as u64);
+    }
     // 5. malformed and hostile names
     let valid = cache.keys().next().cloned().unwrap_or_else(|| rand_hash(&mut rng));
     let long = "a".repeat(4096);
